@@ -28,6 +28,8 @@ def check(ctx, tier):
     fs = [ctx.func(RA + n) for n in ("cumsum", "_row_accumulate", "sort", "_accumulate")] + \
          [ctx.func("arrayfunctions." + n) for n in ("unique", "diff")]
     layout.boundary_gather_rules(ctx, tk, "C07.a", fs)
+    # the per-row sort (and unique, which builds on it) orders by the row key of ViewBase.index_array: the flat-position -> row map must be exact
+    layout.index_map_rules(ctx, tk, "C07.j")
     cumsum_rules(ctx, tk)
     sort_rules(ctx, tk)
     unique_rules(ctx, tk)
